@@ -55,4 +55,10 @@ PROPS = {
         "assumptions": ["costs are in 1..capacity (C06 covers rejection above capacity)"],
         "explanation": "structural invariant proved over all op sequences of the policy model; model replayed step by step against the real TinyLfu",
     },
+    "STORE": {
+        "props_files": [],
+        "go_tests": ["TestVerifStore"],
+        "level": "proof",
+        "rule": "x", "trusted_base": [], "assumptions": [], "explanation": "scratch entry to exercise the store model",
+    },
 }
